@@ -617,6 +617,8 @@ Plan gen_c10(uint64_t seed, bool th) {
   if (g.r.pct(40)) g.p.cfg["lim.incomplete"] = std::to_string(g.r.range(1, 4));
   if (g.r.pct(30)) g.p.cfg["lim.msgsize"] = std::to_string(g.r.range(400, 4000));
   if (g.r.pct(50)) g.p.cfg["lim.auth_timeout"] = std::to_string(g.r.range(50, 3000));
+  bool paused_reader = g.r.pct(25);
+  if (paused_reader) g.p.cfg["lim.in_bytes"] = std::to_string(g.r.range(1500, 6000));
   g.connect_all(false, true);
   g.add(g.mk("addmatch", 2, {-1}, {g.r.pct(50) ? "eavesdrop='true'" : "type='signal'"}));
   g.add(g.mk("reqname", 1, {0, -1}, {"com.example.pair"}));
@@ -693,6 +695,32 @@ Plan gen_c10(uint64_t seed, bool th) {
       g.add(g.mk("raw", h, {-1, 0}, {std::string((size_t)g.r.range(1, 3000), (char)g.r.next())}));
     } else if (x < 80) {
       g.add(g.mk("adv", -1, {(int64_t)g.r.range(10, 4000)}));
+    } else if (x < 86 && paused_reader) {
+      // a client floods a bystander that does not read until the bus stops reading from the flooder
+      // (max_incoming_bytes), then closes abruptly; something is then addressed to it.  The bus must notice the
+      // hang-up although it is not reading from that connection, must not spin, and must go on serving.
+      int ni = next++;
+      g.sh.nclients = next;
+      g.add(g.mk("connect", ni, {0, 0, 2000 + ni, 0, 0}));
+      g.add(g.mk("auth", ni, {1}));
+      g.add(g.mk("hello", ni, {-1}));
+      g.add(g.bus_step(3));
+      g.add(g.mk("stall", 2, {1}));
+      std::string b;
+      int n = (int)g.r.range(60, 140);
+      for (int k = 0; k < n; k++) { wire::Msg m = wire::Msg::signal((uint32_t)(k + 2), "/com/example/obj", "com.example.Iface", "Do", {wire::Value::string(std::string((size_t)g.r.range(20, 120), 'f'))}); b += wire::marshal(m); }
+      g.add(g.mk("raw", ni, {-1, 0}, {b}));
+      hostile.push_back(ni);
+      hserial.push_back((uint32_t)(n + 2));
+      g.add(g.bus_step(4));
+      if (g.r.pct(80)) {
+        g.add(g.mk("close", ni));
+        g.add(g.mk("send", 0, {1, 0, -1}, {"$u" + std::to_string(ni), "/x", "com.example.Iface", "Poke", "", ""}));
+        g.add(g.bus_step(3));
+        g.add(g.mk("check"));
+      }
+      round_trip();
+      if (g.r.pct(70)) g.add(g.mk("stall", 2, {0}));
     } else {
       round_trip();
     }
@@ -1054,6 +1082,7 @@ Plan gen_c15(uint64_t seed, bool th) {
   if (max_msg != 16) g.p.cfg["lim.msg_fds"] = std::to_string(max_msg);
   g.p.cfg["lim.pending_fd_timeout"] = std::to_string(g.r.pct(50) ? 300 : 2000);
   if (g.r.pct(30)) g.p.cfg["lim.in_fds"] = std::to_string(g.r.range(2, 8));
+  if (g.r.pct(20)) { g.p.cfg["lim.out_fds"] = std::to_string(g.r.range(0, 3)); g.sh.rxcap_small_pct = 60; g.sh.lazy_drain = true; }   // descriptors queued for a slow recipient are limited too
   // a policy that refuses some of the traffic: the refused messages' descriptors must be closed too
   bool with_policy = g.r.pct(45);
   if (with_policy) {
